@@ -3,9 +3,10 @@
   knowledge graph, their `save`/`load` discipline and the loaders' failure behaviour in
   src/storage_engine/mod.rs, over the abstract file system `ILV.FS`.
 
-  * `RuleCatalog::save` (rule_catalog.rs:781-805): `create_dir_all(parent)`; `fs::write(catalog.json, pretty
-    JSON)` — truncate + write **in place**, no fsync, no rename.
-  * `SchemaCatalog::save` (schema/catalog.rs:299-314): the same discipline on `<kg>/schema.json`.
+  * `RuleCatalog::save` (rule_catalog.rs:781, after the `fix:` commit): `create_dir_all(parent)`; write
+    `catalog.json.tmp`; `sync_all` it; rename it over `catalog.json`; fsync the directory
+    (the discipline of `save_shard_meta`).
+  * `SchemaCatalog::save` (schema/catalog.rs:299): the same discipline on `<kg>/schema.json(.tmp)`.
   * `RuleCatalog::new`/`load` (412-428, 768-778): missing file ⇒ empty; unparsable ⇒ `Err`.
     `load_knowledge_graph_from_persist` (storage_engine/mod.rs:1764) propagates the error ⇒
     `StorageEngine::new` fails.
@@ -68,6 +69,8 @@ inductive Doc where
 inductive Path where
   | ruleCat      -- <kg>/rules/catalog.json
   | schemaCat    -- <kg>/schema.json
+  | ruleTmp      -- <kg>/rules/catalog.json.tmp
+  | schemaTmp    -- <kg>/schema.json.tmp
   deriving DecidableEq, Repr
 
 abbrev Disk := Files Path Doc
@@ -96,11 +99,17 @@ inductive Ack where
 -- labels of the `nop` FS steps
 def lblRuleMkdir : Nat := 0
 def lblSchemaMkdir : Nat := 1
+def lblRuleDirsync : Nat := 4
+def lblSchemaDirsync : Nat := 5
 
-/-- `RuleCatalog::save` (dirty): mkdir, then rewrite catalog.json in place. -/
-def saveRules (c : RuleCat) : List (Op Path Doc) := [.nop lblRuleMkdir, .write .ruleCat [.rules c]]
+/-- `RuleCatalog::save` (dirty): mkdir, write the temp file, fsync it, rename it over catalog.json, fsync the
+    directory. -/
+def saveRules (c : RuleCat) : List (Op Path Doc) :=
+  [.nop lblRuleMkdir, .write .ruleTmp [.rules c], .fsync .ruleTmp, .rename .ruleTmp .ruleCat, .nop lblRuleDirsync]
 /-- `SchemaCatalog::save`. -/
-def saveSchemas (s : SchemaCat) : List (Op Path Doc) := [.nop lblSchemaMkdir, .write .schemaCat [.schemas s]]
+def saveSchemas (s : SchemaCat) : List (Op Path Doc) :=
+  [.nop lblSchemaMkdir, .write .schemaTmp [.schemas s], .fsync .schemaTmp, .rename .schemaTmp .schemaCat,
+   .nop lblSchemaDirsync]
 
 def insertSorted (n : Name) : List Name → List Name
   | [] => [n]
@@ -182,16 +191,17 @@ def step (m : Mem) : COp → Ack × Mem × List (Op Path Doc)
     match aGet m.schemas r with
     | none => (.okBool false, m, [])
     | some _ => let sc := aDel m.schemas r; (.okBool true, { m with schemas := sc }, saveSchemas sc)
-  -- KnowledgeGraph::drop_relation (2564-2594): the schema is removed **in memory only** (no
-  -- `save_schema_catalog`), the rule is dropped through `RuleCatalog::drop` (which saves).
+  -- KnowledgeGraph::drop_relation (2564-2594, after the `fix:` commit): the schema is removed and, when there was
+  -- one, the schema catalog saved; then the rule is dropped through `RuleCatalog::drop` (which saves).
   | .dropRel n =>
     match aGet m.rules n, aGet m.schemas n with
     | none, none => (.err, m, [])
-    | hr, _ =>
+    | none, some _ => let sc := aDel m.schemas n; (.ok, { m with schemas := sc }, saveSchemas sc)
+    | some _, none => let r := aDel m.rules n; (.ok, { m with rules := r }, saveRules r)
+    | some _, some _ =>
       let sc := aDel m.schemas n
-      match hr with
-      | none => (.ok, { m with schemas := sc }, [])
-      | some _ => let r := aDel m.rules n; (.ok, { rules := r, schemas := sc }, saveRules r)
+      let r := aDel m.rules n
+      (.ok, { rules := r, schemas := sc }, saveSchemas sc ++ saveRules r)
 
 /-- the JSON codec contract: a file parses iff it holds exactly one complete document. -/
 def parseDoc (f : File Doc) : Option Doc :=
@@ -228,14 +238,20 @@ structure St where
   disk : Disk := []
   deriving Repr
 
+/-- a cut function over the (finite) set of paths, as an association list. -/
+def cutsOf (l : List (Path × Cut)) : Path → Option Cut := fun p =>
+  match l.find? (fun e => e.1 = p) with
+  | some e => some e.2
+  | none => none
+
 /-- history items. -/
 inductive HItem where
   | op (o : COp)
-  /-- crash while `o` is in flight, after its `j`-th FS step (`j ≥ 1`; if `o` performs fewer steps the crash
-      falls right after `o`); `cut`: how the file written by that step is torn (`none`: not at all). -/
-  | opCrash (o : COp) (j : Nat) (cut : Option Cut)
-  | restart                                  -- crash between operations, every write complete
-  | restartTorn (p : Path) (cut : Cut)       -- crash between operations, unsynced data of `p` torn
+  /-- crash while `o` is in flight, after its `j`-th FS step (if `o` performs fewer steps the crash falls right
+      after `o`); `cuts`: how the unsynced data of every file is torn (any file, any cut). -/
+  | opCrash (o : COp) (j : Nat) (cuts : List (Path × Cut))
+  /-- crash between operations, unsynced data torn according to `cuts`. -/
+  | restart (cuts : List (Path × Cut))
   deriving Repr
 
 inductive Out where
@@ -243,11 +259,17 @@ inductive Out where
   | reboot (old new : Mem) (got : Option Mem)          -- live catalogs before / after the in-flight op; recovered
   deriving DecidableEq, Repr
 
+/-- FS-step kinds for the label tie: 0/1 mkdir, 2/3 temp write, 6/7 fsync, 8/9 rename, 4/5 directory fsync
+    (even = rule catalog, odd = schema catalog). -/
 def stepKind : Op Path Doc → Nat
   | .nop l => l
-  | .write .ruleCat _ => 2
-  | .write .schemaCat _ => 3
-  | _ => 9
+  | .write .ruleTmp _ => 2
+  | .write .schemaTmp _ => 3
+  | .fsync .ruleTmp => 6
+  | .fsync .schemaTmp => 7
+  | .rename .ruleTmp _ => 8
+  | .rename .schemaTmp _ => 9
+  | _ => 99
 
 def rebootFrom (old new : Mem) (image : Disk) : Out × Option St :=
   let r? := recover image
@@ -257,17 +279,10 @@ def runItem (st : St) : HItem → Out × Option St
   | .op o =>
     let (a, m', ops) := step st.mem o
     (.ack a (ops.map stepKind), some { mem := m', disk := applyAll st.disk ops })
-  | .opCrash o j cut =>
+  | .opCrash o j cuts =>
     let (_, m', ops) := step st.mem o
-    let done := ops.take j
-    let d := applyAll st.disk done
-    let cuts : Path → Option Cut :=
-      match cut, ops[j - 1]? with
-      | some c, some (.write p _) => if j ≥ 1 then cutAt p c else noCut
-      | _, _ => noCut
-    rebootFrom st.mem m' (crash d cuts)
-  | .restart => rebootFrom st.mem st.mem (crash st.disk noCut)
-  | .restartTorn p c => rebootFrom st.mem st.mem (crash st.disk (cutAt p c))
+    rebootFrom st.mem m' (crash (applyAll st.disk (ops.take j)) (cutsOf cuts))
+  | .restart cuts => rebootFrom st.mem st.mem (crash st.disk (cutsOf cuts))
 
 /-- run a history; stops at the first reboot that fails to open. -/
 def run (st : St) : List HItem → List Out
@@ -289,15 +304,5 @@ def finalSt (st : St) : List HItem → Option St
     match (runItem st it).2 with
     | some st' => finalSt st' rest
     | none => none
-
-/-- the input family excluded by `C16_partial`: `drop_relation` on a relation that has a schema. -/
-def safe (m : Mem) : COp → Bool
-  | .dropRel n => (aGet m.schemas n).isNone
-  | _ => true
-
-def safeItem (m : Mem) : HItem → Bool
-  | .op o => safe m o
-  | .opCrash o _ _ => safe m o
-  | _ => true
 
 end ILV.Cat
